@@ -11,4 +11,48 @@ for spec in "N1-queue-extra-lock C04 C05" "N2-sorter-insertion-for-short C09 C02
     echo "$n $id: $R" >> "$OUT"
   done
 done
+# refactorings written by sub-agents who saw only the property texts (seeded/neutral/<group>-nK/)
+while read g n id; do
+  R=$(/verif/tools/try_mutant2.sh /verif/seeded/neutral/$g-$n/patch.diff $id | head -1)
+  echo "$g-$n $id: $R" >> "$OUT"
+done <<'JOBS'
+NA n1 C01
+NA n1 C02
+NA n1 C03
+NA n1 C13
+NA n1 C17
+NA n1 C18
+NA n2 C02
+NA n2 C15
+NA n3 C03
+NA n3 C16
+NA n4 C13
+NA n4 C14
+NA n4 C18
+NB n1 C15
+NB n1 C02
+NB n2 C16
+NB n2 C03
+NB n3 C01
+NB n3 C18
+NB n3 C17
+NB n4 C20
+NC n1 C10
+NC n1 C19
+NC n2 C11
+NC n2 C12
+NC n3 C11
+NC n3 C12
+NC n3 C10
+NC n4 C12
+NC n4 C11
+ND n1 C09
+ND n1 C07
+ND n2 C07
+ND n2 C08
+ND n3 C19
+ND n4 C01
+ND n4 C09
+ND n4 C18
+JOBS
 rm -rf ${VERIF_MUTANT_GOCACHE:-/tmp/gocache-mutants}
